@@ -8,6 +8,7 @@ import (
 	"sync"
 	"time"
 
+	"github.com/gogo/protobuf/proto"
 	"github.com/pingcap/kvproto/pkg/metapb"
 	"github.com/pingcap/kvproto/pkg/pdpb"
 	"github.com/tikv/pd/pkg/mock/mockcluster"
@@ -50,7 +51,8 @@ type reg struct {
 // cmd is one command drained from the heartbeat stream.
 type cmd struct {
 	m    *pdpb.RegionHeartbeatResponse
-	t    *opTrack // operator it was sent for (nil: could not be attributed)
+	snap *pdpb.RegionHeartbeatResponse // its value when the store side took it off the stream
+	t    *opTrack                      // operator it was sent for (nil: could not be attributed)
 	seq  int
 	kind string
 }
@@ -158,10 +160,13 @@ type world struct {
 	evNo    int
 	callNo  int
 
-	lastReads int  // cache reads of the last controller call
-	broken    bool // a controller call panicked
-	populated bool // a world with ~100+ regions
-	finite    bool // small store limits (admissions get refused for quota)
+	lastReads    int        // cache reads of the last controller call
+	queued       []*sentCtx // commands on the stream that the store side has not read yet
+	pendingWorld bool
+	lazy         int  // 0: the stream is read after every call; n: only when n commands are queued
+	broken       bool // a controller call panicked
+	populated    bool // a world with ~100+ regions
+	finite       bool // small store limits (admissions get refused for quota)
 }
 
 func key(k int) []byte { return []byte(fmt.Sprintf("k%04d", k)) }
@@ -478,6 +483,57 @@ func (w *world) afterChange(g *reg, before *sim.Region, owner *opTrack, what str
 	}
 }
 
+// oneField changes exactly one thing a region heartbeat reports besides the configuration: a pending
+// mark, a down mark, the approximate size or the raft term. None of them is a configuration change: an
+// operator must not be judged stale because of it.
+func (w *world) oneField(g *reg, field string) bool {
+	s := g.sim
+	switch field {
+	case "settle-pending":
+		if len(s.Pending) == 0 {
+			return false
+		}
+		s.SettlePending(0)
+	case "mark-pending":
+		var c []uint64
+		for _, p := range s.Peers {
+			if p.StoreId != s.LeaderStore && !s.Pending[p.Id] {
+				c = append(c, p.Id)
+			}
+		}
+		if len(c) == 0 {
+			return false
+		}
+		s.Pending[c[w.rng.Intn(len(c))]] = true
+	case "down":
+		var c []uint64
+		for _, p := range s.Peers {
+			if p.StoreId != s.LeaderStore {
+				c = append(c, p.Id)
+			}
+		}
+		if len(c) == 0 {
+			return false
+		}
+		id := c[w.rng.Intn(len(c))]
+		if s.Down[id] {
+			delete(s.Down, id)
+		} else {
+			s.Down[id] = true
+		}
+	case "size":
+		s.ApproximateSize += 1 << 20
+	case "term":
+		s.Term++
+	default:
+		return false
+	}
+	g.dirty = true
+	g.logf("#%d STORE reports a heartbeat that differs in one field: %s -> %s", w.evNo, field, s.Describe())
+	w.r.Count("one_field_heartbeat_"+field, 1)
+	return true
+}
+
 // ---- foreign events --------------------------------------------------------------------------------------
 
 func (w *world) emptyStores(g *reg) []uint64 {
@@ -646,6 +702,15 @@ func (w *world) exec(g *reg, idx int, remove bool) error {
 		g.inbox = append(g.inbox[:idx:idx], g.inbox[idx+1:]...)
 	}
 	m := c.m
+	if c.snap != nil && !proto.Equal(c.m, c.snap) {
+		// a command is a value: once sent, nothing may change it (the stream serialises it later)
+		cc := c
+		report("command-changed-after-send:"+c.kind, fmt.Sprintf("a %s command for region %d was altered after it had been sent: now %v", c.kind, c.snap.GetRegionId(), c.m),
+			w.phase, 0, func() map[string]interface{} {
+				return map[string]interface{}{"when_read_from_stream": cc.snap.String(), "when_executed": cc.m.String(), "operator": opID(cc.t), "region_history": append([]string(nil), g.log...)}
+			})
+		c.snap = proto.Clone(c.m).(*pdpb.RegionHeartbeatResponse)
+	}
 	before := g.sim.Clone()
 	var err error
 	owner := c.t
